@@ -13,8 +13,7 @@ FRAGMENT = {
                'ISO 13818-1 / EN 300 472 / EN 301 775 and by the round trip; sampling, not proof',
  'level_note': 'trusted: the parser and the frame validity rules (taken from the API documentation of vbi_dvb_mux_feed/cor: which frames must be accepted / '
                'rejected; where the documentation and the standard leave the outcome open both are accepted), libzvbi\'s vbi_sliced bit order conventions, clang '
-               'sanitizers.  Five dvb_mux.c / dvb_demux.c defects found here are repaired in /repo (regress/C06); the generator steers around one shape, a suspected sixth defect '
-               '(frame led by undefined lines of the same field parity as the previous data unit and with a lower line number: see assumptions)',
+               'sanitizers.  Six dvb_mux.c / dvb_demux.c defects found here are repaired in /repo (regress/C06); the generator steers around nothing',
  'design_ref': 'DESIGN.md section 6 (C06)',
  'rule': 'one evaluation = one simulated run: 1-10 frames (quick) and one or two closing frames fed to one multiplexer with interleaved configuration changes, every emitted packet parsed, '
          'the byte pipe drained by a transport task in scheduler/plan chosen pieces into the demultiplexer, deliveries compared with the accepted frames; '
@@ -27,11 +26,9 @@ FRAGMENT = {
                  'as separate frames by their line numbers: delivered joined or separate, both accepted (the oracle works this out for the frames as delivered); '
                  'an undefined line has no number: it neither makes a frame recognisable nor ends a run of ascending numbers',
                  'at most four undefined (line 0) Teletext lines per frame, none when the demultiplexer may have joined 58 lines already (its frame buffer has 64)',
-                 'NOT generated (guard, counter guard_lead0_same_field; suspected defect of dvb_demux.c, /verif/out/C06/lead0-same-field.json + fix-1.diff): a '
-                 'frame led by undefined lines whose field parity equals that of the last sliced data unit sent before AND with a numbered line that is not above '
-                 'the last numbered line sent before - the demultiplexer adds the undefined lines to the frame it is collecting, then takes the lower number '
-                 'in the middle of the packet for a line order error and drops both frames; the leading undefined lines of such a frame are removed unless '
-                 'the plan knob lead0_strict is set (no generator sets it; `--tier lead0strict` of the binary does, for experiments)',
+                 'a frame led by undefined lines whose field parity equals that of the last sliced data unit sent before and with a numbered line not above '
+                 'the last numbered line sent before is generated like any other (the dvb_demux.c defect that dropped both frames is repaired, '
+                 'regress/C06/lead0-same-field.json); only replay files written while it was open (lead0 without lead0_strict) keep the former guard',
                  'plans without the knob lead0 (older replay files) keep the former canonical form: undefined lines never lead a frame, one closing frame',
                  'the field parity of an undefined line is not checked by the parser (only by the round trip)']}
 }
